@@ -34,7 +34,7 @@ from hypothesis import strategies as st
 import nifty.cl as ift
 from nifty.cl.operators.operator import _OpChain, _OpProd, _OpSum
 from vlib import Discard, Sub, Violation, close, require
-from vlib import nx
+from vlib import findings, nx
 from vlib import strat as S
 
 PROPERTY = "C05"
@@ -180,8 +180,8 @@ def _f(name, v):
         t = np.tanh(v)
         return t, 1. - t * t
     if name == "sigmoid":
-        s = 0.5 * (1. + np.tanh(0.5 * v))
-        return s, s * (1. - s)
+        t = np.tanh(v)      # NIFTy's documented convention: sigmoid(v) = 1/2 + tanh(v)/2
+        return 0.5 + 0.5 * t, 0.5 - 0.5 * t * t
     if name == "sin":
         return np.sin(v), np.cos(v)
     raise ValueError(name)
@@ -306,17 +306,23 @@ def _isnode(op):
 
 
 def sharing(op):
-    """walks the operator DAG below `op` (through _OpChain/_OpSum/_OpProd only, like the optimiser) and
-    returns (#node objects reached over >= 2 edges, #leaf-operand objects occurring at >= 2 places,
-    #distinct nodes, max nesting depth, #nodes sitting at a non-final chain position)"""
-    edges = {}        # id(node) -> number of incoming edges
-    leafobj = {}      # id(non-FieldAdapter op at the bottom of a leaf operand) -> number of leaf positions
+    """walks the operator DAG below `op` (through _OpChain/_OpSum/_OpProd only, like the optimiser); harness-only
+    code, by object identity.  Returns a dict with
+      shared_nodes  : #_OpSum/_OpProd objects reached over >= 2 edges            ("shared subtree")
+      shared_leaves : #non-FieldAdapter operator objects that are the bottom of >= 2 leaf operands ("shared leaf")
+      nodes, depth  : #distinct nodes, maximal nesting
+      inner         : #nodes sitting at a non-final position of an _OpChain
+      chain_reuse   : the same _OpChain OBJECT is a leaf operand at >= 2 places while a different leaf operand
+                      starts with the same bottom operator
+      nested        : a shared subtree contains another shared subtree
+      multi_shared  : a shared subtree / shared leaf involves an operator with a MultiDomain target"""
+    edges, kids, tgt_multi = {}, {}, {}
+    leafobj, leafmulti, chainpos, chainbottom = {}, {}, {}, {}
     inner = [0]
     depth = {}
-    keep = []
+    keep = []      # keeps visited objects alive so that ids stay unique
 
-    def operand(x):
-        """an operand slot (root or _op1/_op2): returns nesting depth"""
+    def operand(x, parent):
         ops = x._ops if isinstance(x, _OpChain) else (x,)
         d = 0
         found = False
@@ -325,12 +331,20 @@ def sharing(op):
                 found = True
                 if pos != len(ops) - 1:
                     inner[0] += 1
+                if parent is not None:
+                    kids[parent].append(id(o))
                 d = max(d, visit(o))
         if not found:
             for o in reversed(ops):
                 if not isinstance(o, ift.FieldAdapter):
                     leafobj[id(o)] = leafobj.get(id(o), 0) + 1
+                    if any(isinstance(oo.target, ift.MultiDomain) for oo in ops):
+                        leafmulti[id(o)] = True
                     keep.append(o)
+                    if isinstance(x, _OpChain):
+                        chainpos[id(x)] = chainpos.get(id(x), 0) + 1
+                        chainbottom[id(x)] = id(o)
+                        keep.append(x)
                     break
         return d
 
@@ -339,14 +353,32 @@ def sharing(op):
         if id(n) in depth:
             return depth[id(n)]
         keep.append(n)
+        kids[id(n)] = []
+        tgt_multi[id(n)] = isinstance(n.target, ift.MultiDomain)
         depth[id(n)] = 0
-        depth[id(n)] = 1 + max(operand(n._op1), operand(n._op2))
+        depth[id(n)] = 1 + max(operand(n._op1, id(n)), operand(n._op2, id(n)))
         return depth[id(n)]
 
-    dmax = operand(op)
-    return dict(shared_nodes=sum(1 for c in edges.values() if c > 1),
+    dmax = operand(op, None)
+    shared = {i for i, c in edges.items() if c > 1}
+
+    def below(i, seen):
+        for c in kids[i]:
+            if c in shared:
+                return True
+            if c not in seen:
+                seen.add(c)
+                if below(c, seen):
+                    return True
+        return False
+
+    return dict(shared_nodes=len(shared),
                 shared_leaves=sum(1 for c in leafobj.values() if c > 1),
-                nodes=len(edges), depth=dmax, inner=inner[0])
+                nodes=len(edges), depth=dmax, inner=inner[0],
+                chain_reuse=any(c > 1 and leafobj[chainbottom[x]] > c for x, c in chainpos.items()),
+                nested=any(below(i, set()) for i in shared),
+                multi_shared=any(tgt_multi[i] for i in shared) or any(
+                    c > 1 and leafmulti.get(i, False) for i, c in leafobj.items()))
 
 
 # ---- the oracle -------------------------------------------------------------------------------
@@ -397,6 +429,13 @@ def check(rec):
         return out
 
     share = sharing(op)
+    # regions recorded as known findings are skipped (only when such an entry exists, see _excluded)
+    excl = _excluded()
+    for tag, hit in (("no_node", share["nodes"] == 0), ("shared_chain_leaf", share["chain_reuse"]),
+                     ("nested_shared_subtrees", share["nested"]), ("multi_target_shared", share["multi_shared"]),
+                     ("node_inside_chain", share["inner"] > 0)):
+        if hit and tag in excl:
+            raise Discard()
     rep_before = repr(op)
     before = evaluate(op)
     for (v, vl, J, JT, *_), (rv, rJ) in zip(before, refs):
@@ -439,8 +478,11 @@ def check(rec):
     classes = [f"shared_leaves_{_bucket(share['shared_leaves'])}", f"shared_subtrees_{_bucket(share['shared_nodes'])}",
                f"depth_{share['depth']}", f"keys_{len(dom_exp.keys())}", "root_" + type(op).__name__,
                "result_" + type(opt).__name__]
-    if share["inner"]:
-        classes.append("node_inside_chain")
+    for tag, hit in (("no_node", share["nodes"] == 0), ("shared_chain_leaf_object", share["chain_reuse"]),
+                     ("nested_shared_subtrees", share["nested"]), ("multi_target_shared", share["multi_shared"]),
+                     ("node_inside_chain", share["inner"] > 0)):
+        if hit:
+            classes.append(tag)
     kinds = {e[0] for e in rec["pool"]}
     if isinstance(op.target, ift.MultiDomain):
         classes.append("multi_target")
@@ -455,6 +497,12 @@ def check(rec):
 
 
 # ------------------------------------------------------------------ strategies
+def _excluded():
+    """regions recorded as known findings (known_findings.json, `exclude_tag`) are not generated, so that the
+    search continues behind them; nothing is excluded while no such entry exists"""
+    return findings.known_tags(PROPERTY)
+
+
 def _lin_spec(draw, sizes, src):
     kind = draw(st.sampled_from(["scal", "scal", "diag", "mat", "mat"]))
     if kind == "scal":
@@ -475,7 +523,8 @@ def recipes(draw, tier, subst):
     sizes = {"T": nT, "U": nU}
     tk = draw(st.sampled_from(["rg", "un"]))
     nkeys = draw(st.integers(1, 3))
-    keys = {k: draw(st.sampled_from(["T", "T", "U"])) for k in "abc"[:nkeys]}
+    keys = {k: draw(st.sampled_from(["T", "T", "T", "U"])) for k in "abc"[:nkeys]}
+    excl = _excluded()
     lins, pool, meta = [], [], []   # meta: type, lin, depth, bound, dom
 
     def add(entry, **m):
@@ -490,7 +539,7 @@ def recipes(draw, tier, subst):
         # prefer recent entries (keeps the DAG connected) but allow any
         if draw(st.booleans()):
             cand = cand[-3:]
-        return draw(st.sampled_from(cand))
+        return cand[-1 - draw(st.integers(0, len(cand) - 1))]
 
     def tame(i):
         """entry whose magnitude is <= 1 (wraps in tanh-like function when needed)"""
@@ -502,7 +551,7 @@ def recipes(draw, tier, subst):
     def unary(i):
         m = meta[i]
         multi = isinstance(m["type"], tuple)
-        kind = draw(st.sampled_from(["ptw", "ptw", "ptw", "lin", "lin", "scale", "addc"]))
+        kind = draw(st.sampled_from(["ptw", "lin", "ptw", "lin", "ptw", "scale", "addc"]))
         if kind == "lin" and multi:
             kind = "ptw"
         if kind == "ptw":
@@ -539,7 +588,11 @@ def recipes(draw, tier, subst):
 
     def binary(i, kind):
         a = meta[i]
-        j = pick(lambda b: compatible(a, b, kind) and max(a["depth"], b["depth"]) < 4)
+        j = None
+        if draw(st.integers(0, 2)) == 2:   # mix in another input key when possible
+            j = pick(lambda b: compatible(a, b, kind) and max(a["depth"], b["depth"]) < 4 and not b["dom"] <= a["dom"])
+        if j is None:
+            j = pick(lambda b: compatible(a, b, kind) and max(a["depth"], b["depth"]) < 4)
         if j is None:
             j = i
         if draw(st.booleans()):
@@ -557,16 +610,20 @@ def recipes(draw, tier, subst):
         return add([kind, i, j], type=ty, lin=lin, depth=max(a["depth"], b["depth"]) + (0 if lin else 1),
                    bound=bound, dom=a["dom"] | b["dom"])
 
-    # leaves
-    for _ in range(draw(st.integers(1, 4))):
-        k = draw(st.sampled_from(sorted(keys)))
+    # phase 1: FieldAdapter leaves (several distinct objects may adapt the same key)
+    for n in range(nkeys + draw(st.integers(0, 2))):
+        k = sorted(keys)[n] if n < nkeys else draw(st.sampled_from(sorted(keys)))
         add(["fa", k], type=keys[k], lin=True, depth=0, bound=XIN, dom=frozenset([k]))
-    ncomp = draw(st.integers(2, 12 if tier == "quick" else 16))
+    # phase 2: leaf chains grown on top of each other (common chain prefixes made of the same objects)
+    for _ in range(draw(st.integers(1, 4))):
+        unary(pick())
+    # phase 3: combinators over everything built so far
+    ncomp = draw(st.integers(3, 10 if tier == "quick" else 14))
     for _ in range(ncomp):
         i = pick()
         m = meta[i]
         multi = isinstance(m["type"], tuple)
-        choices = ["unary", "unary", "sum", "sum", "prod", "prod", "sub"]
+        choices = ["sum", "prod", "sum", "prod", "sub", "unary"]
         if subst:
             choices += ["dl", "apply", "apply", "get"]
         kind = draw(st.sampled_from(choices))
@@ -588,9 +645,23 @@ def recipes(draw, tier, subst):
                 add(["get", k, i], **dict(m, type=keys[k]))
                 continue
         if kind == "apply":
-            # outer operator i (domain keys dom_i), inner operator j with MultiDomain target subset of dom_i
-            j = pick(lambda b: isinstance(b["type"], tuple) and set(b["type"]) <= m["dom"]
-                     and m["depth"] + b["depth"] <= 4 and not (m["lin"] and b["lin"]))
+            # outer operator i (domain keys dom_i), inner operator j with MultiDomain target subset of dom_i;
+            # a node in the outer operator then sits at a non-final position of an _OpChain
+            if "node_inside_chain" in excl and m["depth"] > 0:
+                i = pick(lambda b: b["depth"] == 0)
+                m = meta[i]
+
+            def inner_ok(b):
+                return (isinstance(b["type"], tuple) and set(b["type"]) <= m["dom"]
+                        and m["depth"] + b["depth"] <= 4 and not (m["lin"] and b["lin"]))
+            j = pick(inner_ok)
+            if j is None:
+                # make an inner operator: something of the right type, ducktaped to one of the outer's keys
+                c = pick(lambda b: not isinstance(b["type"], tuple) and not (m["lin"] and b["lin"])
+                         and m["depth"] + b["depth"] <= 4 and any(keys[k] == b["type"] for k in m["dom"]))
+                if c is not None:
+                    k = draw(st.sampled_from([k for k in sorted(m["dom"]) if keys[k] == meta[c]["type"]]))
+                    j = add(["dl", k, c], **dict(meta[c], type=(k,)))
             if j is None:
                 kind = "unary"
             else:
@@ -603,7 +674,15 @@ def recipes(draw, tier, subst):
             unary(i)
         else:
             binary(i, kind)
-    root = len(pool) - 1
+    # root: mostly the last entry that contains a node (entries above it are then unused); sometimes any entry
+    # (includes the degenerate tree without any _OpSum/_OpProd)
+    nodes = [i for i in range(len(pool)) if meta[i]["depth"] >= 1]
+    if not nodes and "no_node" in excl:
+        nodes = [binary(len(pool) - 1, "prod")]
+    if nodes and (draw(st.integers(0, 19)) < 19 or "no_node" in excl):
+        root = nodes[-1] if draw(st.integers(0, 3)) < 3 else draw(st.sampled_from(nodes))
+    else:
+        root = draw(st.integers(0, len(pool) - 1))
     inputs = []
     for _ in range(5):
         inputs.append({k: draw(S.vec(sizes[t], S.dyadic(-XIN, XIN, 8))) for k, t in sorted(keys.items())})
@@ -620,12 +699,12 @@ def substitution(tier):
 
 
 SUBS = [
-    Sub(name="sum_prod_chain_trees", check=check, strategy=plain, quick=1600, thorough=60000, shards=8,
+    Sub(name="sum_prod_chain_trees", check=check, strategy=plain, quick=1600, thorough=80000, shards=8,
         rule="trees from +,-,*,ptw,linear-op@ over pooled objects (nodes only at the end of chains); "
              "non-trivial = >=1 shared leaf object (same non-FieldAdapter operator object at the bottom of two leaf "
              "operands) and >=1 shared subtree (_OpSum/_OpProd object reached over two edges), counted by object "
              "identity on the tree built from the recipe; distinct = sha1 of the canonical recipe"),
-    Sub(name="substitution_trees", check=check, strategy=substitution, quick=1600, thorough=60000, shards=8,
+    Sub(name="substitution_trees", check=check, strategy=substitution, quick=1600, thorough=80000, shards=8,
         rule="additionally ducktape_left / op[key] / op @ op (substitution of a MultiDomain-valued subtree into the "
              "inputs of another, MultiDomain targets); same non-triviality rule"),
 ]
